@@ -27,7 +27,7 @@ ROW = ("row",)
 INDEX_GETTERS = {"get_measurements": ("sset",), "get_field_keys": ("sset",), "get_tag_keys": ("sset",), "get_timestamps": L(TIME),
                  "get_field_values": L(UNK), "get_tag_values": D(("sset",))}
 # (name, Coq result type, kind of the result, decorators)
-GETTERS = [("__len__", "nat", INT, []), ("get_measurements", "list str", L(STR), ["read_op"]), ("get_field_keys", "list str", L(STR), ["read_op"]),
+GETTERS = [("__len__", "nat", INT, []), ("__iter__", "list point", L(POINT), []), ("get_measurements", "list str", L(STR), ["read_op"]), ("get_field_keys", "list str", L(STR), ["read_op"]),
            ("get_tag_keys", "list str", L(STR), ["read_op"]), ("get_field_values", "list (option num)", L(UNK), ["read_op"]),
            ("get_timestamps", "list Z", L(TIME), ["read_op"]), ("get_tag_values", "list (str * list (option str))", D(L(UNK)), ["read_op"])]
 
@@ -161,7 +161,7 @@ class MeasCompiler(DbCompiler):
         return ast.fix_missing_locations(fn2)
 
     def __init__(self, cls):
-        self.fns = {n.name: self.rewrite(n) for n in cls.body if isinstance(n, ast.FunctionDef) and n.name in ("__len__",)}
+        self.fns = {n.name: self.rewrite(n) for n in cls.body if isinstance(n, ast.FunctionDef) and n.name in ("__len__", "__iter__")}
         self.sigs = {}
 
     def is_pathlike(self, e):
@@ -208,7 +208,8 @@ def main():
         mcls = [n for n in mtree.body if isinstance(n, ast.ClassDef) and n.name == "Measurement"]
         if len(mcls) != 1:
             raise Refuse("class Measurement not found")
-        text += "(* class Measurement (measurement.py): self._db is the database object, self._name the handle's name *)\n" + MeasCompiler(mcls[0]).method("__len__", ("nat", INT), [])
+        text += "(* class Measurement (measurement.py): self._db is the database object, self._name the handle's name *)\n" + MeasCompiler(mcls[0]).method("__len__", ("nat", INT), []) + \
+            MeasCompiler(mcls[0]).method("__iter__", ("list point", L(POINT)), [])
     except (Refuse, SyntaxError, OSError, RecursionError) as r:
         refused = str(r)
         snap = open(FALLBACK_FILE).read().replace("Definition refused : bool := false.", "Definition refused : bool := true.")
